@@ -97,7 +97,7 @@ func c30NowExp(f *File, fd *ast.FuncDecl) bool {
 }
 
 func c30Run(fs *Facts) {
-	names := []string{"isExpiredGuard0", "isExpiredStrict", "shiftGuard0", "shiftStrict", "selectGuard0", "selectStrict",
+	names := []string{"isExpiredGuard0", "isExpiredStrict", "shiftGuard0", "shiftStrict",
 		"selectCapGuard0", "selectCapStrict", "coldBuildNe0", "addBeaconsNe0", "saveBranchNe0", "reindexNe0", "patchReaddNe0",
 		"filterGuard0", "isEmptyEq0", "setZeroNone", "clearWins"}
 	tr, e1 := Load(c06Treasure)
@@ -187,7 +187,7 @@ func c30Run(fs *Facts) {
 	for _, s := range []struct {
 		name, fn string
 		assign   bool
-	}{{"shift", "ShiftExpired", false}, {"select", "SelectExpiredForPatch", false}, {"selectCap", "SelectExpiredForPatchWithCap", true}} {
+	}{{"shift", "ShiftExpired", false}, {"selectCap", "SelectExpiredForPatchWithCap", true}} {
 		g, st, at := siteIn(s.fn, s.assign)
 		set(s.name+"Guard0", g, bc, at)
 		set(s.name+"Strict", st, bc, at)
